@@ -13,11 +13,12 @@ REQUIRED_THEOREMS = [
     'OpusProps.C09.lbrr_flag_position', 'OpusProps.C09.plc_gains_contract', 'OpusProps.C09.plc_gains_first_frame',
     'OpusProps.C09.loss_duration_saturates',
 ]
-RULE = ('loss patterns x call shapes on real encoder output: for 12 configurations (SILK NB/MB/WB 10-60 ms, hybrid SWB/FB 10/20 ms, '
-        'CELT 2.5-20 ms, automatic mode switching; mono/stereo; decoders at all five rates; in-band FEC on/off; decoder gain) every '
-        'one of the 2^k loss patterns over a window of k packets (k = 7 quick / 10 thorough in the replay, 8 / 12 in the search) on four anchor configurations and random patterns on the others, '
+RULE = ('loss patterns x call shapes on real encoder output: for 16 configurations (SILK NB/MB/WB 10-60 ms, hybrid SWB/FB 10/20 ms, '
+        'CELT 2.5-20 ms, automatic mode switching, stereo FEC streams whose stereo image keeps changing, streams switched SILK -> CELT '
+        '-> SILK inside the loss window; mono/stereo; decoders at all five rates; in-band FEC on/off; decoder gain) every '
+        'one of the 2^k loss patterns over a window of k packets (k = 7 quick / 10 thorough in the replay, 8 / 12 in the search) on six anchor configurations and random patterns on the others, '
         'each with a call shape from {one PLC call, PLC split into 2.5-20 ms pieces, FEC from the next packet, FEC with a '
-        'larger-than-packet frame_size}; plus long bursts (1-10 s). Every call of the lossy decoder is replayed on the Lean '
+        'larger-than-packet frame_size}; plus long bursts (1-10 s; the first eight walk a fixed list incl. mono streams into stereo decoders and the reverse). Every call of the lossy decoder is replayed on the Lean '
         'skeleton (return value, state, inner call sequence with arguments and extents); the SILK PLC gain scalars of every '
         'traced concealed frame, opus_packet_has_lbrr of every packet and the CELT loss_duration counter are compared with their '
         'models; a case is distinct by (operation, outcome class)')
@@ -54,11 +55,11 @@ CALIB = json.load(open(os.path.join(os.path.dirname(os.path.abspath(__file__)), 
 
 def _th():
     t = CALIB['thresholds']
-    return '%g,%g,%g,%g' % (t['peak'], t['decay'], t['reconv'], t['fecratio'])
+    return '%g,%g,%g,%g,%g,%g' % (t['peak'], t['decay'], t['reconv'], t['fecratio'], t['decay2'], t['fecframe'])
 
 
 def _k(ctx):
-    return (7, 6) if ctx.quick else (10, 40)
+    return (7, 10) if ctx.quick else (10, 40)
 
 
 def ties(ctx):
@@ -108,11 +109,12 @@ def classify(ctx, tie, mm):
 
 def search(ctx):
     """C09 predicates on the implementation (no model): requested duration returned by every concealment / FEC call whatever the
-    loss pattern and call shape, finite output, concealed peak <= peak x level before the loss, level 1 s into a sustained loss
-    <= decay x pre-loss level, re-convergence to the loss-free twin 400 ms after packets resume, every received packet decodes
+    loss pattern and call shape, finite output, concealed peak <= peak x level before the loss, level of every output channel 1 s / 2 s
+    into a sustained loss <= decay / decay2 x its pre-loss level, every frame rebuilt from LBRR data within fecframe x max(frame level,
+    concealment error), re-convergence to the loss-free twin 400 ms after packets resume, every received packet decodes
     with the encoder's final range, opus_packet_has_lbrr == LBRR flag decoded by silk_Decode, FEC error energy <= fecratio x
     PLC error energy where concealment fails; thresholds from tools/props/C09_calib.json."""
-    k, b = (8, 6) if ctx.quick else (12, 60)
+    k, b = (8, 10) if ctx.quick else (12, 60)
     runs = [('plain', ctx.seed + 1000, k, b), ('san', ctx.seed + 2000, 6 if ctx.quick else 10, b)]
     cases, wit, kinds, samples, stats = 0, [], {}, [], []
 
